@@ -187,8 +187,10 @@ def crash_key(rc, err):
     m = re.search(r"ERROR: (AddressSanitizer|LeakSanitizer): ([\w-]+)", err)
     if m:
         fr = re.findall(r"#\d+ 0x[0-9a-f]+ in (\w+) [^\n]*?/hwloc/([\w.-]+):(\d+)", err)
-        fn = "%s" % fr[0][0] if fr else "?"
         san = "asan" if m.group(1) == "AddressSanitizer" else "lsan"
+        if san == "lsan":       # the function that owns the leaked object, not the allocator it went through
+            fr = [f for f in fr if not re.match(r"hwloc_(bitmap|tma)_|hwloc__?(alloc|strdup)|hwloc_alloc", f[0])] or fr
+        fn = "%s" % fr[0][0] if fr else "?"
         return "%s:%s:%s" % (san, m.group(2) if san == "asan" else "leak", fn)
     m = re.search(r"Assertion `([^']*)' failed", err)
     if m:
@@ -388,6 +390,8 @@ def src_lines(snap, root, comps):
     ls = []
     if snap.kind == "linux":
         ls.append("src fsroot " + root)
+        if "x86" in comps:
+            ls.append("src cpuid " + os.path.join(root, "cpuid"))       # Linux snapshots that also hold a CPUID dump
     elif snap.kind == "x86":
         ls.append("src cpuid " + root)
     else:
@@ -1672,6 +1676,61 @@ def x86_mutation_cases(run, snaps):
     return cases
 
 
+TOPO_FAMILIES = {
+    "package": ["package_cpus", "package_cpus_list", "core_siblings", "core_siblings_list", "physical_package_id"],
+    "core": ["core_cpus", "core_cpus_list", "thread_siblings", "thread_siblings_list", "core_id"],
+    "die": ["die_cpus", "die_cpus_list", "die_id"],
+    "cluster": ["cluster_cpus", "cluster_cpus_list", "cluster_id"],
+    "package+core": ["package_cpus", "core_siblings", "physical_package_id", "core_id"],
+}
+
+
+def pair_cases(run, pool, snaps):
+    """Snapshots that hold BOTH a sysfs tree and a CPUID dump, loaded with the two backends together (linux first and x86
+    annotating, or x86 first and linux annotating) while attribute files are missing: whole families of cpuN/topology files
+    (what defines Packages, Cores, Dies, Clusters) removed on cpu0 or on every CPU, the cache directories, node files,
+    random sets, under filter variants.  The annotating backend then sees a topology the first one built incompletely;
+    clean 0/-1, well-formed, and no leak (LeakSanitizer at process exit, attributed by re-running the cases alone)."""
+    rng = run.rng
+    quick = run.tier == "quick"
+    cases = []
+    for snap in snaps:
+        rem = removable_of(pool, snap)
+        if snap.kind == "linux":
+            if not any(re.match(r"cpuid/pu\d+$", p) for p in rem):
+                continue
+            pre, orders = "", ["linux,x86,stop"]
+        elif snap.kind == "x86+linux":
+            pre, orders = "fsroot/", ["linux,x86,stop", "x86,linux,stop"]
+        else:
+            continue
+        cpus = sorted({int(m.group(1)) for p in rem for m in [re.match(re.escape(pre) + r"sys/devices/system/cpu/cpu(\d+)/topology$", p)] if m})
+        if not cpus:
+            continue
+        sysrem = [p for p in rem if p.startswith(pre + "sys/devices/system/")]
+        for comps in orders:
+            env = {"HWLOC_COMPONENTS": comps, "HWLOC_THISSYSTEM": "0", "HWLOC_DUMPED_HWDATA_DIR": "/var/run/hwloc", "_light": "1", "_noheap": "1"}
+            variants = [[]]
+            for fam, files in TOPO_FAMILIES.items():
+                for scope in ([cpus[0]], cpus):
+                    variants.append([pre + "sys/devices/system/cpu/cpu%d/topology/%s" % (c, f) for c in scope for f in files])
+            variants.append([pre + "sys/devices/system/cpu/cpu%d/cache" % c for c in cpus])
+            variants.append([pre + "sys/devices/system/cpu/cpu%d/topology" % cpus[0]])
+            variants.append([pre + "sys/devices/system/node"])
+            for _ in range(4 if quick else 40):
+                variants.append(G.random_set(rng, sysrem, 20))
+            if not quick:
+                classes = {}
+                for p in sysrem:
+                    classes.setdefault(class_of(p), []).append(p)
+                variants += [inst for inst in classes.values()]           # every instance of a file-name class at once
+            for k, rm in enumerate(variants):
+                rm = [p for p in rm if p in set(rem)] if rm and not rm[0].endswith(("cache", "topology", "node")) else rm
+                for fs in ([[]] if quick and k % 3 else [[], ["filter 1 1"], ["filter all 1"]] if k < 12 else [[]]):
+                    cases.append(("backend-pair", (snap, comps, env, fs, rng.choice([0, 0, 1]) if k else 0, G.normalise(rm))))
+    return cases
+
+
 NONE_TYPES = [1, 2, 3, 5, 6, 7, 8, 9, 10, 11, 12, 13, 15]      # every type that may be filtered out entirely, PU/NUMA/Machine excepted
 
 
@@ -1850,6 +1909,7 @@ def check_snapshots(run, snapexe, drv, replay_case=None):
         labelled += node_mutation_cases(run, pool, allsnaps)
         labelled += x86_mutation_cases(run, allsnaps)
         labelled += filter_none_cases(run, allsnaps)
+        labelled += pair_cases(run, pool, allsnaps)
         run.cov["snapshots_used"] = sorted(s.rel for s in snaps)
         # judge per label so that the evidence shows the distribution
         cases = [c for _, c in labelled]
